@@ -291,6 +291,7 @@ pub struct CaseSlot {
     pub family: String,
     pub input: Vec<u8>,
     pub cpu_start_ns: u64,
+    pub wall_start: Option<std::time::Instant>,
     pub active: bool,
 }
 
@@ -310,6 +311,13 @@ pub struct GenericLane {
 
 static REGISTRY: std::sync::Mutex<Vec<Registered>> = std::sync::Mutex::new(Vec::new());
 pub static MAX_CASE_CPU_MS: std::sync::atomic::AtomicU64 = std::sync::atomic::AtomicU64::new(0);
+/// Seconds of wall time after which a monitored call that has consumed (almost) no CPU time is
+/// reported as blocked for good (a deadlock burns no CPU, so the CPU-time budget alone would never
+/// fire).  0 = rule off: properties whose calls legitimately wait on the network (C15, C17, C18)
+/// switch it off.  The rule needs BOTH a long wall time and a thread that is not being scheduled
+/// because it is not runnable: a runnable thread on a loaded machine still accumulates CPU time.
+pub static BLOCKED_AFTER_WALL_S: std::sync::atomic::AtomicU64 = std::sync::atomic::AtomicU64::new(0);
+const BLOCKED_MAX_CPU_NS: u64 = 1_000_000_000;
 
 thread_local! {
     static MY_SLOT: RefCell<Option<(libc::clockid_t, std::sync::Arc<std::sync::Mutex<CaseSlot>>)>> = const { RefCell::new(None) };
@@ -334,6 +342,7 @@ fn ensure_registered() {
             family: String::new(),
             input: Vec::new(),
             cpu_start_ns: 0,
+            wall_start: None,
             active: false,
         }));
         let generic = std::sync::Arc::new(GenericLane::default());
@@ -389,6 +398,7 @@ pub fn case_begin(op: &str, family: &str, input: &[u8]) {
                 g.input.clear();
                 g.input.extend_from_slice(&input[..input.len().min(1 << 20)]);
                 g.cpu_start_ns = clock_ns(*clock);
+                g.wall_start = Some(std::time::Instant::now());
                 g.active = true;
             }
         }
@@ -417,7 +427,7 @@ pub fn case_end() {
 /// case that exceeds `budget_s` of CPU time; it is expected to report and exit the process.
 pub fn start_cpu_watchdog(budget_s: u64, on_stuck: impl Fn(&str, &str, &[u8], u64) + Send + 'static) {
     std::thread::spawn(move || {
-      let mut seen: Vec<(u64, u64)> = Vec::new();
+      let mut seen: Vec<(u64, u64, Option<std::time::Instant>)> = Vec::new();
       loop {
         std::thread::sleep(std::time::Duration::from_millis(200));
         let Ok(reg) = REGISTRY.lock() else { continue };
@@ -439,18 +449,25 @@ pub fn start_cpu_watchdog(budget_s: u64, on_stuck: impl Fn(&str, &str, &[u8], u6
         // thread's CPU time has passed since the watchdog first saw it
         for (i, r) in reg.iter().enumerate() {
             if seen.len() <= i {
-                seen.push((u64::MAX, 0));
+                seen.push((u64::MAX, 0, None));
             }
             if !r.generic.active.load(std::sync::atomic::Ordering::Acquire) {
-                seen[i] = (u64::MAX, 0);
+                seen[i] = (u64::MAX, 0, None);
                 continue;
             }
             let seq = r.generic.seq.load(std::sync::atomic::Ordering::Relaxed);
             let now = clock_ns(r.clock);
+            let blocked_after = BLOCKED_AFTER_WALL_S.load(std::sync::atomic::Ordering::Relaxed);
             if seen[i].0 != seq {
-                seen[i] = (seq, now);
+                seen[i] = (seq, now, Some(std::time::Instant::now()));
             } else if now.saturating_sub(seen[i].1) > budget_s * 1_000_000_000 {
                 on_stuck("a monitored call into the library", "", &[], now.saturating_sub(seen[i].1) / 1_000_000_000);
+                return;
+            } else if blocked_after > 0
+                && seen[i].2.map(|w| w.elapsed().as_secs() >= blocked_after).unwrap_or(false)
+                && now.saturating_sub(seen[i].1) < BLOCKED_MAX_CPU_NS
+            {
+                on_stuck(&format!("a monitored call into the library|BLOCKED|{}", blocked_after), "", &[], 0);
                 return;
             }
         }
@@ -462,6 +479,11 @@ pub fn start_cpu_watchdog(budget_s: u64, on_stuck: impl Fn(&str, &str, &[u8], u6
             let used_ns = clock_ns(r.clock).saturating_sub(g.cpu_start_ns);
             if used_ns > budget_s * 1_000_000_000 {
                 on_stuck(&g.op, &g.family, &g.input, used_ns / 1_000_000_000);
+                return;
+            }
+            let blocked_after = BLOCKED_AFTER_WALL_S.load(std::sync::atomic::Ordering::Relaxed);
+            if blocked_after > 0 && used_ns < BLOCKED_MAX_CPU_NS && g.wall_start.map(|w| w.elapsed().as_secs() >= blocked_after).unwrap_or(false) {
+                on_stuck(&format!("{}|BLOCKED|{}", g.op, blocked_after), &g.family, &g.input, 0);
                 return;
             }
         }
